@@ -422,6 +422,34 @@ def r21_let_map_collect(text):
         text = text[:m.start()] + new + text[m.end():]
 
 
+def r22_vec_extend(text):
+    """`IDENT.extend(EXPR)` (statement) => `vec_extend(&mut IDENT, EXPR)`: Vec::extend is generic over IntoIterator and has no vstd
+    specification; the template defines `vec_extend` for a vector argument as a verified loop of pushes."""
+    n = 0
+    while True:
+        m = re.search(r'(?m)^(\s*)([a-z_][A-Za-z0-9_]*)\.extend\((.*)\)(;?)[ \t]*$', text)
+        if not m:
+            return text, n
+        n += 1
+        ind, v, e, semi = m.groups()
+        text = text[:m.start()] + f'{ind}vec_extend(&mut {v}, {e}){semi}' + text[m.end():]
+
+
+def r23_range_copy(text):
+    """`V[A..B].copy_from_slice(&S);` => `assert!((A) <= (B) && (B) <= V.len() && (B) - (A) == S.len()); for r__N in 0..S.len() { V[(A) + r__N] = S[r__N]; }`"""
+    n = 0
+    while True:
+        m = re.search(r'(?m)^(\s*)([A-Za-z_][A-Za-z0-9_]*)\[([^\]\n]+?)\.\.([^\]\n]+)\]\.copy_from_slice\(&([A-Za-z_][A-Za-z0-9_]*)\);[ \t]*$', text)
+        if not m:
+            return text, n
+        n += 1
+        ind, v, a, b, src = m.groups()
+        k = f'r__{n}'
+        new = (f'{ind}assert!(({a}) <= ({b}) && ({b}) <= {v}.len() && ({b}) - ({a}) == {src}.len()); '
+               f'for {k} in 0..{src}.len() {{ {v}[({a}) + {k}] = {src}[{k}]; }}')
+        text = text[:m.start()] + new + text[m.end():]
+
+
 def r10_windows2(text):
     """`for W in X.windows(2) {` => `for w__N in 0..(if X.len() >= 2 { X.len() - 1 } else { 0 }) { let W = [X[w__N], X[w__N + 1]];`
     (Verus has no specification of slice::Windows; for Copy elements W[0], W[1] read the same values)."""
@@ -483,7 +511,7 @@ def r7_param_patterns(text):
     return _apply_edits(text, edits), n
 
 
-RULES = [('R0', r0_visibility_and_stats), ('R1', r1_ref_patterns), ('R7', r7_param_patterns), ('R8', r8_assert_eq), ('R9', r9_subslice_copy), ('R10', r10_windows2), ('R11', r11_collect), ('R12', r12_subslice_to_subslice), ('R13', r13_copied_take), ('R15', r15_iter_all_eq), ('R16', r16_map_collect_tail), ('R17', r17_match_arm_ref_guard), ('R18', r18_bool_bitand), ('R20', r20_iter_skip), ('R21', r21_let_map_collect),
+RULES = [('R0', r0_visibility_and_stats), ('R1', r1_ref_patterns), ('R7', r7_param_patterns), ('R8', r8_assert_eq), ('R9', r9_subslice_copy), ('R10', r10_windows2), ('R11', r11_collect), ('R12', r12_subslice_to_subslice), ('R13', r13_copied_take), ('R15', r15_iter_all_eq), ('R16', r16_map_collect_tail), ('R17', r17_match_arm_ref_guard), ('R18', r18_bool_bitand), ('R20', r20_iter_skip), ('R21', r21_let_map_collect), ('R22', r22_vec_extend), ('R23', r23_range_copy),
          ('R2', r2_array_literal_loops), ('R3', r3_zip_enumerate)]
 
 
